@@ -4,6 +4,7 @@
    These theorems extend the coverage of C02, C11, C19, C01 and C07 to whole builds. *)
 From KV Require Import Res.Pipeline Res.PipelineProofs Res.PipelineOrderProofs Res.PipelineFrameProofs Res.PipelineGenProofs Res.PipelinePermProofs.
 From KV Require Res.Generators Res.Hash.
+From KV Require Import Res.PipelineHashProofs Res.PipelineWfProofs Res.RenameProofs Res.C03Facts Res.NameRefProofs Res.BuildRefs Res.FsFacts.
 From KV Require Import Yaml.FieldSpecSpec Yaml.FieldSpecProofs.
 From KV Require Res.Labels Res.Hygiene.
 From Coq Require Import Sorting.Permutation.
@@ -24,3 +25,84 @@ Theorem PIPE_generated_projection :
               get_kind n = (if Generators.g_secret o then "Secret" else "ConfigMap")%string.
 Proof. exact gen_node_projects. Qed.
 Print Assumptions PIPE_generated_projection.
+
+(* ---------- C06_name_is_hash over the integrated build ----------
+   [m]: what the tree accumulates — every layer, every create / merge / replace of the generators, generatorOptions,
+   every transformer.  Guard (exact): the accumulated documents are well formed ([wf_res]: a mapping with a kind, a
+   non-empty comma-free metadata.name, a comma-free namespace, consistent rename history).
+   Conclusion: the hash step renames each resource that asks for a suffix to  name ++ "-" ++ hash(content of the renamed
+   document)  and leaves its content, kind and namespace alone ([hashed]); every OUTPUT document comes from one such
+   resource ([subrel]: IgnoreLocal may drop some, the final sort permutes) with the same metadata.name, kind, data,
+   binaryData and type ([same_hashed_fields]) — the name-reference pass and the final annotation rewrite cannot reach
+   those locations (Gen_C06P_identity_fields_untouched).  So every generated ConfigMap / Secret of the output is named
+   base ++ "-" ++ hash(its own content, after all merges). *)
+Theorem C06P_name_is_hash_partial :
+  forall nonstr o t outs m,
+    Pipeline.accumulate nonstr t = Ok m -> Forall wf_res m -> Pipeline.build nonstr o t = Ok outs ->
+    exists m1 outs0,
+      Forall2 hashed m m1 /\ Permutation outs outs0 /\
+      subrel (fun r1 out => same_hashed_fields (r_node r1) out) m1 outs0.
+Proof. exact build_generated_names. Qed.
+Print Assumptions C06P_name_is_hash_partial.
+
+(* the guard holds for trees of well-formed documents (w-pipe's [tree_wf]: no namespace directive, generators that
+   create, comma-free names / prefixes / suffixes; generatorOptions allowed) *)
+Theorem C06P_name_is_hash_wf :
+  forall nonstr o t outs,
+    tree_wf t -> Pipeline.build nonstr o t = Ok outs ->
+    exists m m1 outs0,
+      Pipeline.accumulate nonstr t = Ok m /\
+      Forall2 hashed m m1 /\ Permutation outs outs0 /\
+      subrel (fun r1 out => same_hashed_fields (r_node r1) out) m1 outs0.
+Proof. exact build_generated_names_wf. Qed.
+Print Assumptions C06P_name_is_hash_wf.
+
+Theorem C06P_same_hashed_fields :
+  forall n n', same_hashed_fields n n' ->
+    get_name n' = get_name n /\ get_kind n' = get_kind n /\ content_of_node n' = content_of_node n.
+Proof. exact same_hashed_fields_spec. Qed.
+Print Assumptions C06P_same_hashed_fields.
+
+(* obligation on the generated rule table: no referrer path of the name-reference rules (nor metadata/annotations)
+   reaches metadata.name, kind, data, binaryData or type *)
+Theorem Gen_C06P_identity_fields_untouched :
+  untouched_post [JKey "metadata"; JKey "name"]%string /\ untouched_post [JKey "kind"]%string /\
+  untouched_post [JKey "data"]%string /\ untouched_post [JKey "binaryData"]%string /\ untouched_post [JKey "type"]%string.
+Proof. exact identity_fields_untouched_post. Qed.
+Print Assumptions Gen_C06P_identity_fields_untouched.
+
+(* ---------- references carry the same suffix (partial: one rule row, guards of C03_refs_follow_partial) ----------
+   A reference that a row of the generated rule table resolves to the hashed resource r1 (the only candidate of the
+   row's kind that ever had the referenced name, visible to the referrer) holds afterwards exactly
+   name(r) ++ "-" ++ hash(content r1) = metadata.name of r1. Missing for the full statement: the composition over all
+   rows and the passage from unambiguous original names to "exactly one candidate" (see C03). *)
+Theorem C06P_refs_carry_suffix_partial :
+  forall nonstr rules b fs,
+    effective_rules gen_gvk_order_first gen_gvk_order_last gen_nameref_raw = Ok rules ->
+    In b rules -> In fs (nb_referrers b) ->
+    forall cands referrer r' a t s old c r r1,
+      reaches (path_splitter (fs_path fs)) a (r_node referrer) = true ->
+      get_addr a (r_node referrer) = Some (Scalar t s old) ->
+      is_null (Scalar t s old) = false ->
+      let x := make_ctx pipe_cs referrer (fs_path fs) (nb_gvk b) in
+      filter (name_kind_match x old) cands = [c] ->
+      roleref_sieve x c = true -> namespace_sieve x c = true ->
+      apply_rule pipe_cs nonstr cands fs (nb_gvk b) referrer = Ok r' ->
+      r_needs_hash r = true -> hashed r r1 -> view pipe_cs r1 = Ok c ->
+      exists t' h, Hash.hash_content (content_of_node (r_node r1)) = Ok h /\
+                   get_name (r_node r1) = (get_name (r_node r) ++ "-" ++ h)%string /\
+                   get_addr a (r_node r') = Some (Scalar t' s (get_name (r_node r) ++ "-" ++ h)%string).
+Proof. exact refs_carry_suffix. Qed.
+Print Assumptions C06P_refs_carry_suffix_partial.
+
+(* ---------- C06_invariance over the integrated build ----------
+   The directives of a kustomization (namespace, namePrefix, nameSuffix, labels, commonLabels, commonAnnotations; the
+   builtin transformers in the generated order) never change what the hasher reads of any resource, nor whether it asks
+   for a suffix: the suffix computed at the top is a function of the generators' declarations alone.
+   Guards: `labels` entries without custom `fields`; no `images:` directive; every accumulated document has a kind. *)
+Theorem C06P_invariance_transformers :
+  forall nonstr d m m',
+    no_custom_fields d -> pd_images d = [] -> Forall has_kind m -> run_transformers nonstr d m = Ok m' ->
+    Forall2 (fun r r' => content_of_node (r_node r') = content_of_node (r_node r) /\ r_needs_hash r' = r_needs_hash r) m m'.
+Proof. exact transformers_keep_content. Qed.
+Print Assumptions C06P_invariance_transformers.
